@@ -6,7 +6,7 @@
    calcPATSectionLength are re-translated from the source on every run. *)
 From Coq Require Import ZArith List Lia.
 Require Import Base.Bits Base.Iter Base.Wr Gen.Consts Gen.Types Gen.Preds Model.Packet Model.Psi.
-Require Import Model.Desc Spec.CrcSpec Spec.PsiSpec Proofs.PsiProofs Proofs.PsiParse Proofs.PsiParsePmt Proofs.PsiWritePmt.
+Require Import Model.Desc Spec.CrcSpec Spec.PsiSpec Proofs.PsiProofs Proofs.PsiParse Proofs.PsiParsePmt Proofs.PsiWritePmt Proofs.PsiDescLink.
 Import ListNotations.
 Open Scope Z_scope.
 
@@ -131,12 +131,12 @@ Theorem C13_parse_pmt_nodesc : forall p filler ssi pb ext ver cni sn lsn pcr (xs
 Proof. exact parse_pmt_unit_nodesc. Qed.
 Print Assumptions C13_parse_pmt_nodesc.
 
-(* C13_write_pmt: writePSIData on a unit of one PMT section is, byte for byte, the reference encoding, RELATIVE to
+(* C13_write_pmt_rel: writePSIData on a unit of one PMT section is, byte for byte, the reference encoding, RELATIVE to
    C14's statement about descriptor loops, which enters as an explicit premise: for a descriptor list and its
    reference encoding (desc_enc), writeDescriptorsWithLength succeeds and emits `reserved(4) length(12) bytes`, and
    calcDescriptorsLength is the number of those bytes.  Any number of streams (induction), any stream types and
    PIDs (truncated to their slots on both sides), section within the 12-bit length. *)
-Theorem C13_write_pmt : forall (desc_enc : list Descriptor -> list Z -> Prop),
+Theorem C13_write_pmt_rel : forall (desc_enc : list Descriptor -> list Z -> Prop),
   (forall ds bytes, desc_enc ds bytes ->
      Z.of_nat (length bytes) < 4096 /\ calc_descriptors_length ds = Z.of_nat (length bytes) /\
      exists its, enc_descriptors_with_length ds = Ok its /\ items_bytes_ok its /\
@@ -155,6 +155,26 @@ Theorem C13_write_pmt : forall (desc_enc : list Descriptor -> list Z -> Prop),
         (PSISectionSyntaxHeader_CurrentNextIndicator sh) (PSISectionSyntaxHeader_SectionNumber sh)
         (PSISectionSyntaxHeader_LastSectionNumber sh) pcr pbytes (map stream_spec xs)).
 Proof. exact write_pmt. Qed.
+Print Assumptions C13_write_pmt_rel.
+
+(* C13_write_pmt: the premise discharged with C14's lemmas: desc_bytes ds bytes says that ds is in C14's domain
+   (no body above 255 bytes, loop below 4096, the writer succeeds with byte content) and bytes are the bytes
+   writeDescriptors emits for it (whose TLV structure and length bytes C14_len describes).  writePSIData on one
+   PMT section with such descriptor loops is pointer_field, filler and the reference section layout
+   (ISO 13818-1 2.4.4.8) around those descriptor bytes, CRC_32 included -- any number of streams. *)
+Theorem C13_write_pmt : forall p c h sh d ext_pn pcr pds pbytes xs, 0 <= p < 256 ->
+  PSISectionHeader_TableID h = 2 -> PSISectionHeader_SectionLength h > 0 ->
+  PSISectionSyntaxData_PMT d = Some {| PMTData_ElementaryStreams := map stream_value xs; PMTData_PCRPID := pcr;
+                                       PMTData_ProgramDescriptors := pds; PMTData_ProgramNumber := ext_pn |} ->
+  desc_bytes pds pbytes -> Forall (wstream_ok desc_bytes) xs ->
+  9 + Z.of_nat (length pbytes) + Z.of_nat (length (flat_map stream_bytes xs)) + 4 < 4096 ->
+  write_psi_data {| PSIData_PointerField := p; PSIData_Sections := [mk_section c h sh d] |} =
+  Ok (p :: repeat 0 (Z.to_nat p) ++
+      spec_pmt_section (PSISectionHeader_SectionSyntaxIndicator h) (PSISectionHeader_PrivateBit h)
+        (PSISectionSyntaxHeader_TableIDExtension sh) (PSISectionSyntaxHeader_VersionNumber sh)
+        (PSISectionSyntaxHeader_CurrentNextIndicator sh) (PSISectionSyntaxHeader_SectionNumber sh)
+        (PSISectionSyntaxHeader_LastSectionNumber sh) pcr pbytes (map stream_spec xs)).
+Proof. exact write_pmt_closed. Qed.
 Print Assumptions C13_write_pmt.
 
 (* non-vacuity: the hypotheses are satisfiable and the statements evaluate as claimed on a concrete PAT with
